@@ -75,3 +75,14 @@ def validate_traces(run, exe_result_trace_path, label, corrupt=False):
     tr = run.tlc("ScRecv", "ScRecvTrace", "ScRecvTrace.cfg", mode="trace", files={"trace.ndjson": "\n".join(lines) + "\n"},
                  deque=True, count=False, label=label, timeout=1200)
     return tr.ok, n
+
+
+def stratified(rows, key, n_per, seed, salt=0):
+    """Seeded sample with at least n_per rows of every value of key(row)."""
+    groups = {}
+    for r in rows:
+        groups.setdefault(key(r), []).append(r)
+    out = []
+    for i, k in enumerate(sorted(groups, key=str)):
+        out += sample(groups[k], n_per, seed, salt * 31 + i)
+    return out
